@@ -124,6 +124,7 @@ def run_task(prog, tid, params, tier):
                 ha, hb = Cell(HasherV(), 'ha'), Cell(HasherV(), 'hb')
                 I.call_function(f_hash, [ra, Ref(ha)], {})
                 I.call_function(f_hash, [rb, Ref(hb)], {})
+                I.rust_ab = (rust_a, rust_b)
                 return e, ha.v.stream, hb.v.stream
 
             def on_path(res):
@@ -135,9 +136,12 @@ def run_task(prog, tid, params, tier):
                 e, sa, sb = res.value
                 done[0] += 1
                 if res.ctx.check(z3.And(zbool(e), z3.Not(stream_eq(sa, sb)))):
+                    m = res.ctx.solver.model()
+                    ra_, rb_ = res.interp.rust_ab
+                    code = HASH_TEST % (ra_(m), rb_(m))
                     return {'status': 'violation', 'role': 'hash', 'detail': '%s shape %r: two records compare equal but feed different '
-                            'byte streams to the hasher' % (tname, shape), 'cex': {'entry': 'hash-structural',
-                                                                                  'note': 'streams %d vs %d items' % (len(sa), len(sb))}}
+                            'byte streams to the hasher' % (tname, shape),
+                            'cex': {'entry': 'rust_test', 'code': code, 'expect': {'any_failure': True}}}
                 return None
         v = X.explore(prog, run, on_path, loop_bound=600, stats=stats, timeout_ms=60000)
         agg['paths'] += stats.get('paths', 0)
@@ -155,6 +159,34 @@ def run_task(prog, tid, params, tier):
         agg['status'] = 'inconclusive'
         agg['detail'] = 'vacuous: %d of %d shapes' % (agg['covers_witnessed'], len(shapes))
     return agg
+
+
+HASH_TEST = r'''
+use crate::dns::name::Label;
+use crate::rdata::{self, RData};
+use crate::{CharacterString, Name, ResourceRecord, CLASS};
+use std::borrow::Cow;
+use std::collections::hash_map::DefaultHasher;
+use std::collections::HashSet;
+use std::hash::{Hash, Hasher};
+
+#[test]
+fn verif_case() {
+    let a = %s;
+    let b = %s;
+    let mut fails: Vec<&str> = Vec::new();
+    if a == b {
+        let (mut ha, mut hb) = (DefaultHasher::new(), DefaultHasher::new());
+        a.hash(&mut ha);
+        b.hash(&mut hb);
+        if ha.finish() != hb.finish() { fails.push("hash"); }
+        let mut set = HashSet::new();
+        set.insert(a.clone());
+        if !set.contains(&b) { fails.push("hash"); }
+    }
+    println!("REPLAY-RESULT {{\"outcome\":\"ok\",\"fails\":[{}]}}", fails.iter().map(|s| format!("\"{}\"", s)).collect::<Vec<_>>().join(","));
+}
+'''
 
 
 def build_record_b(prog, I, tname, shape):
